@@ -261,3 +261,60 @@ func zzH_C12_workerDiscard() {
 		zz.Reach("recomputed")
 	}
 }
+
+// zzH_C12_discardLocalOpenReader: a reader of a result opened BEFORE the
+// result is discarded on the in-process executor (a scan in progress, a later
+// Func consuming it) and read on afterwards delivers either exactly the rows
+// of the first evaluation or an error - never a clean end-of-stream with fewer
+// rows.
+func zzH_C12_discardLocalOpenReader() {
+	ctx := context.Background()
+	l := newLocalExecutor()
+	task := &Task{Name: TaskName{Op: "t", NumShard: 1}, Type: zzTyp2, NumPartition: 1}
+	task.state = TaskOk
+	nf := zz.AnyIntIn("frames", 1, 2)
+	var keys, vals []int64
+	var fs []frame.Frame
+	for i := 0; i < nf; i++ {
+		n := zz.AnyIntIn("frameRows", 1, 2)
+		k, v := make([]int64, n), make([]int64, n)
+		for j := range k {
+			k[j], v[j] = zz.AnyInt64("key"), zz.AnyInt64("val")
+		}
+		keys, vals = append(keys, k...), append(vals, v...)
+		fs = append(fs, frame.Slices(k, v))
+	}
+	l.buffers[task] = taskBuffer{fs}
+	rd := l.Reader(task, 0)
+	before := zz.AnyIntIn("readsBeforeDiscard", 0, 2)
+	var gk, gv []int64
+	var err error
+	read := func() {
+		buf := frame.Make(zzTyp2, 1, 1)
+		var n int
+		n, err = rd.Read(ctx, buf)
+		for i := 0; i < n; i++ {
+			gk, gv = append(gk, buf.Index(0, i).Int()), append(gv, buf.Index(1, i).Int())
+		}
+	}
+	for i := 0; i < before && err == nil; i++ {
+		read()
+	}
+	l.Discard(ctx, task)
+	zz.Assert(task.state == TaskLost, "the discarded task is LOST")
+	for i := 0; i < 6 && err == nil; i++ {
+		read()
+	}
+	if err == sliceio.EOF {
+		zz.Reach("open reader drained after the discard")
+		zz.Assert(len(gk) == len(keys), "a reader opened before a Discard that ends cleanly has delivered every row")
+		for i := range keys {
+			if i < len(gk) {
+				zz.Assert(zz.And(gk[i] == keys[i], gv[i] == vals[i]), "a reader opened before a Discard delivers the rows of the first evaluation")
+			}
+		}
+	} else {
+		zz.Reach("open reader fails after the discard")
+		zz.Assert(err != nil, "the reader terminates")
+	}
+}
